@@ -3,15 +3,15 @@
  "property": "C12",
  "standin": "B-gsu",
  "bound": "displays with <= 3 elements x 4 layouts x 4 kinds x delete subsets x 5 insert patterns (1500 sampled cases quick / all thorough) through the real apply_all + new_code",
- "input": "('dict', 'comment', ('\"\"\"a\\nb\"\"\"',), (), {1: ['\"\"\"x\\ny\"\"\"']})",
- "detail": "result does not parse (invalid syntax): 'x = \\'\u00e4\u00f6\\'; v = {\\n    , \\'k10\\': \"\"\"x\\ny\"\"\"}  # tail\\ny = 2\\n'"
+ "input": "('dict', 'comment', ('1', '0+2', '\"\"\"a\\nb\"\"\"'), (0,), {3: ['8', '9']})",
+ "detail": "result does not parse (invalid syntax): \"x = '\u00e4\u00f6'; v = {1: 0+2,  # c\\n    , 'k30': 8, 'k31': 9}  # tail\\ny = 2\\n\""
 }
 """
 
 import sys, tempfile
 sys.path.insert(0, "/verif")
 from bounded.b_gsu import one_case
-msg = one_case(tempfile.mkdtemp(), *('dict', 'comment', ('"""a\nb"""',), (), {1: ['"""x\ny"""']}))
-print(('dict', 'comment', ('"""a\nb"""',), (), {1: ['"""x\ny"""']}), "->", msg)
+msg = one_case(tempfile.mkdtemp(), *('dict', 'comment', ('1', '0+2', '"""a\nb"""'), (0,), {3: ['8', '9']}))
+print(('dict', 'comment', ('1', '0+2', '"""a\nb"""'), (0,), {3: ['8', '9']}), "->", msg)
 assert msg is None, msg
 
